@@ -72,7 +72,7 @@ type walker struct {
 
 func Walk(p *Program, onExpr func(s *ExprSite) Expr, onBlock func(s *StmtSite) []Stmt) *Program {
 	w := &walker{onExpr: onExpr, onBlock: onBlock}
-	q := &Program{Types: p.Types, Features: p.Features}
+	q := &Program{Types: p.Types, Globals: p.Globals, Features: p.Features}
 	for _, f := range p.Funcs {
 		nf := *f
 		w.ctx = SiteCtx{Fn: f, FnKind: "function", RetT: f.Ret, HasErr: f.ErrT != nil}
